@@ -21,8 +21,8 @@ F = Fraction
 
 def tier_shapes(tier):
     if tier == "quick":
-        return [(1, (1,)), (1, (2,)), (2, (1,)), (2, (2,)), (2, (3,)), (1, (1, 1)), (2, (1, 2)), (3, (1,)), (0, (1,))]
-    return [s for s in spec.knot_shapes(3, 2) if s[1]] + [(0, (1,)), (0, (1, 1))]
+        return [(1, (1,)), (1, (2,)), (2, (1,)), (2, (2,)), (2, (3,)), (1, (1, 1)), (2, (1, 2)), (3, (1,)), (0, (1,)), (4, (1,)), (4, (2,))]
+    return [s for s in spec.knot_shapes(3, 2) if s[1]] + [(0, (1,)), (0, (1, 1)), (4, (1,)), (4, (2,)), (4, (1, 2)), (5, (1,))]
 
 
 def removals(shape):
